@@ -20,7 +20,7 @@ def add_prefix(prefix: str) -> Middleware:
             kwargs[as_key] = prefix + key
             return await call(**kwargs)
         if args:
-            key = args[0].lower()
+            key = prefix + args[0]
             return await call(key, *args[1:], **kwargs)
         return await call(**kwargs)
 
